@@ -151,10 +151,11 @@ Definition push_item (rec : gl -> res (list pel * bool)) (s : gfa) (items : list
 
 Definition items_of (g : gl) : list oref := map parse_oref (split_on space (nth_s 1 (g_pos g))).
 
-(* _compute_captured_path; nesting is bounded by the fuel (a group nested in itself exhausts it: RecursionError) *)
+(* _compute_captured_path; nesting is bounded by the fuel, which exceeds the number of groups: only a group nested in itself
+   exhausts it, and that is reported as an inconsistency (F77) *)
 Fixpoint compute (fuel : nat) (s : gfa) (g : gl) : res (list pel * bool) :=
   match fuel with
-  | O => Err (Foreign RecursionError)
+  | O => Err (G EInconsistency)
   | S f => fold_left (fun acc it => do a <- acc ;; push_item (compute f s) s (items_of g) a it) (items_of g) (Ok ([], false))
   end.
 
@@ -175,7 +176,7 @@ Definition names_of_items (g : gl) : list string := split_on space (nth_s 1 (g_p
 
 Fixpoint induced_segments (fuel : nat) (s : gfa) (g : gl) : res (list string) :=
   match fuel with
-  | O => Err (Foreign RecursionError)
+  | O => Err (G EInconsistency)
   | S f =>
       do all <- fold_left (fun acc n =>
                   do a <- acc ;;
